@@ -188,9 +188,10 @@ OPS = [
   "between/repeat: the captures of the failed last repetition are cut back; fewer than lo repetitions fail and leave the saved CapState; every repetition starts where the previous ended",
   [M("between-no-cutback", "                    cap_load(s, cs2);\n                    break;", "                    break;", "BACKTRACK"),
    M("between-fail-keeps-captures", "            if (captured < lo) {\n                cap_load(s, cs);\n                return NULL;", "            if (captured < lo) {\n                return NULL;", "BACKTRACK")]),
- ("capture", "RULE_CAPTURE", True, 3, [],
-  "capture (<-): the captured span is exactly [text, result) inside the window; depth restored",
-  [M("capture-wrong-span", "pushcap(s, janet_stringv(text, (int32_t)(result - text)), tag);", "pushcap(s, janet_stringv(text, (int32_t)(result - s->text_start)), tag);", "WINDOW")]),
+ ("capture", "RULE_CAPTURE", True, 3, ["PEG_CAPTURE_TAGGED"],
+  "capture (<-): the captured span is exactly [text, result) inside the window; depth restored; when the grammar uses back-references the capture is also recorded as a tagged capture, in every mode",
+  [M("capture-fastpath-ignores-backref", "if (!s->has_backref && s->mode == PEG_MODE_ACCUMULATE) {\n                janet_buffer_push_bytes(s->scratch, text, (int32_t)(result - text));", "if (s->mode == PEG_MODE_ACCUMULATE) {\n                janet_buffer_push_bytes(s->scratch, text, (int32_t)(result - text));", "SEM"),
+   M("capture-wrong-span", "pushcap(s, janet_stringv(text, (int32_t)(result - text)), tag);", "pushcap(s, janet_stringv(text, (int32_t)(result - s->text_start)), tag);", "WINDOW")]),
  ("capture_num", "RULE_CAPTURE_NUM", True, 3, [],
   "number: scans exactly the matched span [text, result) inside the window; depth restored",
   [M("number-wrong-span", "if (janet_scan_number_base(text, (int32_t)(result - text), base, &x)) return NULL;", "if (janet_scan_number_base(text, (int32_t)(result - s->text_start), base, &x)) return NULL;", "WINDOW")]),
